@@ -199,6 +199,30 @@ func execPrim(op string, a []string) string {
 			return "ARGUMENT-WRITTEN"
 		}
 		return okBytes(t2, e2)
+	case "prim.macalg":
+		// prim.macalg <alg> <key> <alg2> <data>: a MACer made for <alg>, whose key's alg member is then set to <alg2> (keys are
+		// live maps).  Whatever the implementation makes of that — go on as constructed, or refuse — it neither panics nor
+		// hands out a tag that is neither: every later MACCreate is refused or gives the tag of the algorithm it was made for.
+		alg, _ := strconv.Atoi(a[0])
+		alg2, _ := strconv.Atoi(a[2])
+		m, err := macerFor(alg, unhx(a[1]))
+		if err != nil {
+			return "err"
+		}
+		ref, e1 := m.MACCreate(unhx(a[3]))
+		if e1 != nil {
+			return "err"
+		}
+		ref = append([]byte{}, ref...)
+		m.Key()[iana.KeyParameterAlg] = alg2
+		t2, e2 := m.MACCreate(unhx(a[3]))
+		if e2 == nil && string(t2) != string(ref) {
+			return "TAG-FOLLOWS-THE-CHANGED-ALG " + hx(t2)
+		}
+		if m.MACVerify(unhx(a[3]), flipBit(rand.New(rand.NewSource(int64(len(ref)))), ref)) == nil {
+			return "ALTERED-TAG-ACCEPTED"
+		}
+		return "ok"
 	case "prim.macrekey":
 		// prim.macrekey <alg> <key1> <key2> <data> (HMAC, equal key sizes): the key octets held in the key map are
 		// overwritten in place between two calls on one MACer; the library reads the key on every call, so the
@@ -486,6 +510,11 @@ func genPrimMac(r *rand.Rand, n int) []string {
 			}
 		}
 		k := randBytes(r, ks)
+		if i%17 == 3 { // patterned keys of the right size, every algorithm in turn
+			all := append(append([]int{}, hmacAlgs...), aesmacAlgs...)
+			alg = all[(i/17)%len(all)]
+			k = patterned(keySizeOf(alg), i/17/len(all))
+		}
 		data := randBytes(r, msgLen(r, i%50 == 0))
 		out = append(out, fmt.Sprintf("prim.mac %d %s %s", alg, hx(k), hx(data)))
 		// verification of the right tag and of its mutations
@@ -525,6 +554,18 @@ func genPrimMac(r *rand.Rand, n int) []string {
 			}
 		}
 		out = append(out, fmt.Sprintf("prim.macverify %d %s %s %s", alg, hx(k), hx(data), hx(t)))
+		if i%5 == 2 && len(k) == keySizeOf(alg) { // the key's alg member changes after construction (a sibling of the family, or anything)
+			fam := hmacAlgs
+			if isIn(alg, aesmacAlgs) {
+				fam = aesmacAlgs
+			}
+			alg2 := []int{pick(r, fam), pick(r, fam), pick(r, fam), 0, 1, -7, 1 << 20}[r.Intn(7)]
+			if i%15 == 2 { // every ordered pair of the family in turn
+				alg, alg2 = fam[(i/15)%4], fam[(i/15/4)%4]
+				k = randBytes(r, keySizeOf(alg))
+			}
+			out = append(out, fmt.Sprintf("prim.macalg %d %s %d %s", alg, hx(k), alg2, hx(randBytes(r, 1+r.Intn(70)))))
+		}
 		if i%4 == 0 { // one MACer, two messages
 			out = append(out, fmt.Sprintf("prim.mac2 %d %s %s %s", alg, hx(k), hx(data), hx(randBytes(r, msgLen(r, false)))))
 			if isIn(alg, hmacAlgs) && len(k) == keySizeOf(alg) {
@@ -569,6 +610,16 @@ func genPrimAead(r *rand.Rand, n int) []string {
 			}
 		}
 		pt, aad := randBytes(r, msgLen(r, big)), randBytes(r, msgLen(r, big && r.Intn(2) == 0))
+		if i%17 == 5 || i%17 == 12 { // patterned keys (5) / nonces (12) of the right size, every algorithm in turn
+			all := append(append(append([]int{}, gcmAlgs...), ccmAlgs...), iana.AlgorithmChaCha20Poly1305)
+			alg = all[(i/17)%len(all)]
+			k, nonce = randBytes(r, keySizeOf(alg)), randBytes(r, nonceSizeOf(alg))
+			if i%17 == 5 {
+				k = patterned(len(k), i/17/len(all))
+			} else {
+				nonce = patterned(len(nonce), i/17/len(all))
+			}
+		}
 		if i%40 == 3 { // AES-CCM-16-*: plaintext / ciphertext lengths around the 2^16 limit
 			alg = []int{10, 11, 30, 31}[r.Intn(4)]
 			k, nonce = randBytes(r, keySizeOf(alg)), randBytes(r, 13)
@@ -636,6 +687,9 @@ func genPrimKdf(r *rand.Rand, n int) []string {
 		secret := randBytes(r, []int{0, 1, 16, 32, 33, 64, 100}[r.Intn(7)])
 		salt := randBytes(r, []int{0, 0, 1, 32, 64, 65, 200}[r.Intn(7)])
 		info := randBytes(r, r.Intn(201))
+		if i%17 == 7 { // patterned secrets and salts
+			secret, salt = patterned([]int{16, 32, 64}[(i/17)%3], i/17/3), patterned([]int{0, 32, 64}[(i/17)%3], i/17/3+1)
+		}
 		switch r.Intn(4) {
 		case 0:
 			l := []int{0, 1, 31, 32, 33, 64, 255 * 32, 255*32 + 1, r.Intn(255 * 32)}[r.Intn(9)]
@@ -646,7 +700,11 @@ func genPrimKdf(r *rand.Rand, n int) []string {
 		case 2:
 			ks := []int{16, 32, 16, 32, 24, 15, 0}[r.Intn(7)]
 			l := []int{0, 1, 15, 16, 17, 32, 48, 4080, 4081, r.Intn(4081)}[r.Intn(10)]
-			out = append(out, fmt.Sprintf("prim.hkdfaes %s %s %d", hx(randBytes(r, ks)), hx(info), l))
+			kk := randBytes(r, ks)
+			if i%17 == 7 {
+				kk = patterned([]int{16, 32}[(i/17)%2], i/17/2)
+			}
+			out = append(out, fmt.Sprintf("prim.hkdfaes %s %s %d", hx(kk), hx(info), l))
 		default:
 			ks := []int{16, 32}[r.Intn(2)]
 			var sizes []string
@@ -680,6 +738,32 @@ func genPrimKdf(r *rand.Rand, n int) []string {
 		}
 	}
 	return out
+}
+
+// patterned: the values a "hardening" might single out — all zero, all ones, a counter starting at zero, a single high
+// or low bit — as keys, nonces, secrets and salts at fixed slots (for every algorithm in turn)
+func patterned(n, which int) []byte {
+	b := make([]byte, n)
+	switch which % 5 {
+	case 0: // all zero
+	case 1:
+		for i := range b {
+			b[i] = 0xff
+		}
+	case 2: // 00 .. 00 01
+		if n > 0 {
+			b[n-1] = 1
+		}
+	case 3: // 80 00 .. 00
+		if n > 0 {
+			b[0] = 0x80
+		}
+	default: // 00 01 02 ..
+		for i := range b {
+			b[i] = byte(i)
+		}
+	}
+	return b
 }
 
 func genPrim(r *rand.Rand, n int) []string {
